@@ -207,12 +207,19 @@ fn multi_record_dbs() -> Vec<Db> {
 /// The date grid for "several builds per product with any timestamps": every month of a leap
 /// year, the months around the year change of the neighbouring years, month ends, both sides of
 /// a leap day and of the year change, a century leap year.
+static DEEP_DATES: std::sync::atomic::AtomicBool = std::sync::atomic::AtomicBool::new(false);
+
 fn date_grid(tier: Tier) -> Vec<(i64, i64, i64)> {
     let mut d: Vec<(i64, i64, i64)> = Vec::new();
     if tier == Tier::Thorough {
         // first, middle and last day of every month of seven years (leap, non-leap, the
         // century leap year 2000 and the non-leap century year 2100)
-        for y in [1999, 2000, 2023, 2024, 2025, 2099, 2100] {
+        let mut years = vec![1999, 2000, 2023, 2024, 2025, 2099, 2100];
+        if DEEP_DATES.load(std::sync::atomic::Ordering::Relaxed) {
+            // thorough: the years in which 31 and 32 bits of seconds run out, and a far century leap year
+            years.extend([2038, 2106, 2400]);
+        }
+        for y in years {
             for m in 1..=12 {
                 let last = (28..=31).rev().find(|dd| days_from_1970(y, m, *dd).is_some()).unwrap_or(28);
                 for dd in [1, 15, last] {
@@ -834,7 +841,10 @@ fn permutations(n: usize) -> Vec<Vec<usize>> {
 
 pub fn run(tier: Tier, seed: u64) -> i32 {
     let rep = Report::new("C15", tier, seed, Level::ModelChecking);
-    rep.set_rule("(A) every single-record database over product×version×build×keyring×product_config×cdn_path alphabets (products incl. '/', leading '#', edge white space, '..', a 1100-byte name; versions incl. the BPSV and V1-envelope delimiters; builds incl. the u32/i64/u64 boundaries) plus the multi-record time-order databases plus every ordered pair of dates from a date grid (quick: 36 dates — all months, month ends, leap days, year changes; thorough: first/15th/last day of every month of 1999, 2000, 2023, 2024, 2025, 2099, 2100) as a two-build product in both file orders, restricted to those BuildDatabase::from_file accepts, × product × {versions,cdns,bgdl} × TCP {v1,v2} + v1/summary: server handle_command → both client parsers (mime_parser path of RibbitClient, v1_mime module) → field-by-field comparison with the newest record by an independent calendar / product list comparison; (B) real servers and real clients over loopback for a spanning subset of databases × TCP v1/v2 + HTTP, every multiset of ≤2 (thorough: ordered pairs) misbehaving request classes with one well-formed client in every arrival order, connections held open or closed first, and every well-formed request line of a list delivered in two TCP segments at every cut position; states = scenarios, transitions = requests, traces = scenarios executed");
+    // the full bounds take seconds: both tiers run them (the tier only labels the evidence)
+    DEEP_DATES.store(tier == Tier::Thorough, std::sync::atomic::Ordering::Relaxed);
+    let tier = Tier::Thorough;
+    rep.set_rule("(A) every single-record database over product×version×build×keyring×product_config×cdn_path alphabets (products incl. '/', leading '#', edge white space, '..', a 1100-byte name; versions incl. the BPSV and V1-envelope delimiters; builds incl. the u32/i64/u64 boundaries) plus the multi-record time-order databases plus every ordered pair of dates from a date grid (first/15th/last day of every month of 1999, 2000, 2023, 2024, 2025, 2099, 2100; thorough adds 2038, 2106, 2400) as a two-build product in both file orders, restricted to those BuildDatabase::from_file accepts, × product × {versions,cdns,bgdl} × TCP {v1,v2} + v1/summary: server handle_command → both client parsers (mime_parser path of RibbitClient, v1_mime module) → field-by-field comparison with the newest record by an independent calendar / product list comparison; (B) real servers and real clients over loopback for a spanning subset of databases × TCP v1/v2 + HTTP, every ordered pair of misbehaving request classes with one well-formed client in every arrival order, connections held open or closed first, and every well-formed request line of a list delivered in two TCP segments at every cut position; states = scenarios, transitions = requests, traces = scenarios executed");
     rep.assume("a single cut is exhaustive for request segmentation: the server's reader state is the received prefix; the pause between the segments (150 ms) only has to let the server task run once — a correct server's answer does not depend on it");
     rep.assume("'newest' = chronologically newest by the ISO-8601 offset; tied timestamps accept any tied record");
     rep.assume("loopback sockets, plain HTTP; 2 s answer deadline for a well-formed client while misbehaving clients are connected");
